@@ -48,6 +48,8 @@ Definition b_emit (e : event) (s : bstate) : bstate :=
   mkB (b_sh s) (if b_quiet s then b_out s else e :: b_out s) (b_quiet s) (breaking s) (continuing s) (loop_level s).
 Definition b_counters (b c l : nat) (s : bstate) : bstate := mkB (b_sh s) (b_out s) (b_quiet s) b c l.
 Definition ok (s : bstate) : bool := Nat.eqb (slast s) 0.
+(** the exit status of [return n] / [exit n]: n modulo 256 (mathematical modulo: -2 gives 254) *)
+Definition wrap_status (z : Z) : status := Z.to_nat (Z.modulo z 256).
 
 (** a child process (subshell, pipeline stage): a copy of the state, no loops around it *)
 Definition child (quiet : bool) (s : bstate) : bstate := mkB (b_sh s) (b_out s) (b_quiet s || quiet) 0 0 0.
@@ -93,9 +95,9 @@ Section Spec.
     | LReturn a =>
         match fdepth (b_sh s) with
         | O => errexit_check stk (b_set_last 2 s)        (* "can only `return' from a function" *)
-        | S _ => SRet (match a with Some n => b_set_last (u8 n) s | None => s end)
+        | S _ => SRet (match a with Some n => b_set_last (wrap_status n) s | None => s end)
         end
-    | LExit a => SExit (match a with Some n => b_set_last (u8 n) s | None => s end)
+    | LExit a => SExit (match a with Some n => b_set_last (wrap_status n) s | None => s end)
     | LSet o b => errexit_check stk (b_set_last 0 (b_upd (set_opt o b) s))
     | LAssign a =>
         (* a command without command name: status of the last command substitution, else 0 *)
